@@ -269,4 +269,100 @@ Proof.
   intros (w & [] & _).
 Qed.
 
+
+(** ** what a completed run looks like (shared by all kernels and by both machines) *)
+Definition nostop_seen (w : worker) : Prop := forall i, In i (seen w) -> stop i = false.
+Definition stopped_seen (w : worker) (m : nat) : Prop :=
+  exists s0, seen w = s0 ++ [m] /\ stop m = true /\ (forall i, In i s0 -> stop i = false).
+
+Record Outcome (wl : list worker) : Prop := {
+  O_nonempty : wl <> [];
+  O_incr : Forall (fun w => incr (seen w)) wl;
+  O_cases : Forall (fun w => nostop_seen w \/ exists m, stopped_seen w m) wl;
+  O_bound : forall w i, In w wl -> In i (seen w) -> i < len;
+  (* no early exit: every position is processed by exactly one worker, chunk by chunk *)
+  O_full : (forall i, stop i = false) ->
+           Permutation (flat_map seen wl) (seq 0 len) /\
+           Forall (fun w => seen w = chunks_of (pulls w)) wl;
+  (* early exit: below every stopping position some worker stopped *)
+  O_find : forall j, j < len -> stop j = true ->
+           exists w m, In w wl /\ stopped_seen w m /\ m <= j;
+  O_disjoint : NoDup (flat_map seen wl)
+}.
+
+Lemma incr_app_l l1 l2 : incr (l1 ++ l2) -> incr l1.
+Proof. intros H. apply incr_app_inv in H. tauto. Qed.
+
+Theorem final_outcome s : GInv s -> all_done s -> Outcome (ws s).
+Proof.
+  intros G [Hsp Hdone].
+  pose proof (owned_lt_front G) as Hlt.
+  destruct G as [Gp Gf Gc Gn Gd Gw Gk Gu Gs]. rewrite Hsp in Gs.
+  assert (Hne : ws s <> []) by (destruct (ws s); [simpl in Gs; lia|discriminate]).
+  assert (Hown : forall w, In w (ws s) -> owned w = seen w ++ aband w).
+  { intros w Hw. unfold owned, pending. rewrite (Hdone w Hw). reflexivity. }
+  assert (Hctr : len <= ctr s).
+  { apply Gd. destruct (ws s) as [|w t]; [congruence|]. exists w. split; [left; auto|apply Hdone; left; auto]. }
+  rewrite Forall_forall in Gw.
+  constructor.
+  - exact Hne.
+  - apply Forall_forall. intros w Hw. destruct (Gw w Hw) as [_ Wi _ _ _].
+    rewrite (Hown w Hw) in Wi. eapply incr_app_l; eauto.
+  - apply Forall_forall. intros w Hw. destruct (Gw w Hw) as [_ _ _ _ [(H1 & _ & _)|(m & s0 & E1 & E2 & E3 & _)]].
+    + left. exact H1.
+    + right. exists m, s0. auto.
+  - intros w i Hw Hi. assert (i < front s); [|lia].
+    apply (Hlt w Hw). rewrite (Hown w Hw). apply in_or_app; auto.
+  - intros Hns.
+    assert (Hab : forall w, In w (ws s) -> aband w = [] /\ seen w = chunks_of (pulls w)).
+    { intros w Hw. destruct (Gw w Hw) as [Wh _ _ _ [(_ & H2 & _)|(m & s0 & _ & E2 & _)]].
+      - rewrite (Hown w Hw), H2, app_nil_r in Wh. auto.
+      - rewrite Hns in E2. discriminate. }
+    assert (Hsk : skipped s = false).
+    { destruct (skipped s) eqn:E; auto. destruct (Gk eq_refl) as (w & m & _ & s0 & _ & E2 & _).
+      rewrite Hns in E2. discriminate. }
+    split.
+    + rewrite <- (Gn Hsk Hctr), <- Gp. erewrite flat_map_ext_in; [reflexivity|].
+      intros w Hw. rewrite (Hown w Hw). destruct (Hab w Hw) as [-> _]. now rewrite app_nil_r.
+    + apply Forall_forall. intros w Hw. apply (Hab w Hw).
+  - intros j Hj Hsj.
+    (* some worker stopped below the frontier whenever the frontier is short of j *)
+    assert (Hcov : j < front s \/ exists w m, In w (ws s) /\ stopped w m /\ m < front s).
+    { destruct (skipped s) eqn:E.
+      - right. destruct (Gk eq_refl) as (w & m & Hw & Hm). exists w, m. repeat split; auto.
+        apply (Hlt w Hw). rewrite (Hown w Hw). destruct Hm as (s0 & -> & _).
+        apply in_or_app; left. apply in_or_app; right; left; auto.
+      - left. rewrite (Gn eq_refl Hctr). exact Hj. }
+    destruct Hcov as [Hjf|(w & m & Hw & Hm & Hmf)].
+    + (* j was handed out: its owner saw it or abandoned it *)
+      assert (Hin : In j (flat_map owned (ws s))).
+      { eapply Permutation_in; [apply Permutation_sym; exact Gp|]. apply in_seq. lia. }
+      apply in_flat_map in Hin. destruct Hin as (w & Hw & Hjw). rewrite (Hown w Hw) in Hjw.
+      destruct (Gw w Hw) as [_ _ _ _ [(H1 & H2 & _)|(m & s0 & E1 & E2 & E3 & E4 & _)]].
+      * rewrite H2, app_nil_r in Hjw. rewrite (H1 j Hjw) in Hsj. discriminate.
+      * exists w, m. split; [exact Hw|]. split; [exists s0; auto|].
+        apply in_app_or in Hjw. destruct Hjw as [Hjw|Hjw].
+        -- rewrite E1 in Hjw. apply in_app_or in Hjw. destruct Hjw as [Hjw|[<-|[]]]; [|lia].
+           rewrite (E3 j Hjw) in Hsj. discriminate.
+        -- specialize (E4 j Hjw). lia.
+    + destruct (Nat.lt_ge_cases j (front s)) as [Hjf|Hjf].
+      * (* same argument *)
+        assert (Hin : In j (flat_map owned (ws s))).
+        { eapply Permutation_in; [apply Permutation_sym; exact Gp|]. apply in_seq. lia. }
+        apply in_flat_map in Hin. destruct Hin as (w2 & Hw2 & Hjw). rewrite (Hown w2 Hw2) in Hjw.
+        destruct (Gw w2 Hw2) as [_ _ _ _ [(H1 & H2 & _)|(m2 & s0 & E1 & E2 & E3 & E4 & _)]].
+        -- rewrite H2, app_nil_r in Hjw. rewrite (H1 j Hjw) in Hsj. discriminate.
+        -- exists w2, m2. split; [exact Hw2|]. split; [exists s0; auto|].
+           apply in_app_or in Hjw. destruct Hjw as [Hjw|Hjw].
+           ++ rewrite E1 in Hjw. apply in_app_or in Hjw. destruct Hjw as [Hjw|[<-|[]]]; [|lia].
+              rewrite (E3 j Hjw) in Hsj. discriminate.
+           ++ specialize (E4 j Hjw). lia.
+      * exists w, m. split; [exact Hw|]. destruct Hm as (s0 & E1 & E2 & E3 & _).
+        split; [exists s0; auto|lia].
+  - assert (Hnd : NoDup (flat_map owned (ws s))).
+    { eapply Permutation_NoDup; [apply Permutation_sym; exact Gp|apply seq_NoDup]. }
+    eapply NoDup_flat_map_prefix; [|exact Hnd].
+    intros w Hw. exists (aband w). apply Hown. exact Hw.
+Qed.
+
 End Invariants.
